@@ -349,16 +349,15 @@ Qed.
 
 (* ------------------------------------------------------------------ the writers *)
 
+(* every transcribed writer except jsonio checks each of its writes *)
 Definition sound_kind (k : wkind) : bool :=
-  match k with KZson | KZjson | KText | KZeek | KLake | KVng => true | _ => false end.
-
-Lemma rep_w_checked c : err_checked (Rep c W) = true.
-Proof. reflexivity. Qed.
+  match k with KJson => false | _ => true end.
 
 Lemma write_skel_checked k c sk :
   sound_kind k = true -> write_skel k c = Some sk -> err_checked sk = true.
 Proof.
   destruct k; simpl; try discriminate; intros _ H;
+    try (inversion H; subst; reflexivity);
     repeat (destruct c as [|c]; simpl in H; try discriminate; try (inversion H; subst; reflexivity)).
 Qed.
 
@@ -376,12 +375,13 @@ Lemma close_skel_checked k b c sk :
   sound_kind k = true -> close_skel k b c = Some sk -> err_checked sk = true.
 Proof.
   destruct k; simpl; try discriminate; intros _ H; destruct b;
+    try (inversion H; subst; reflexivity);
     try (destruct c as [|c]; simpl in H; try discriminate); inversion H; subst; reflexivity.
 Qed.
 
-(* zson, zjson, text, zeek, lake and vng writers, directly on the sink or on
-   pkg/bufwriter, for any number of values and any call pattern the transcribed
-   code can produce: every failed sink call is reported. *)
+(* zson, zjson, text, zeek, lake, csv/tsv, table and vng writers, directly on
+   the sink or on pkg/bufwriter, for any number of values and any call pattern
+   the transcribed code can produce: every failed sink call is reported. *)
 Theorem transcribed_writers_report k buffered cs nclose spill f ws cl v s :
   sound_kind k = true ->
   write_skels k cs = Some ws -> close_skel k buffered nclose = Some cl ->
@@ -390,6 +390,15 @@ Proof.
   intros K W C. apply checked_reports.
   - eapply write_skels_checked; eauto.
   - eapply close_skel_checked; eauto.
+Qed.
+
+(* non-vacuity: the transcription produces skeletons and faults do occur *)
+Example transcribed_nonvacuous :
+  exists ws cl, write_skels KCsv [0; 0] = Some ws /\ close_skel KCsv false 1 = Some cl /\
+    let '(v, s) := run (static_env KCsv false [] (mkFault FOneShot 1)) ws cl in v = 3 /\ s_faulted s = true.
+Proof.
+  exists [Rep 0 W; Rep 0 W], (Both (Rep 1 W) CloseSink).
+  split; [reflexivity | split; [reflexivity | vm_compute; split; reflexivity]].
 Qed.
 
 (* jsonio: the errors of the buffered writes are dropped but bufio's error is
@@ -432,60 +441,49 @@ Proof.
     apply checked_op_sound. reflexivity.
 Qed.
 
-(* csvio.Writer.Close flushes the csv.Writer without consulting its error:
-   a two-record output whose only sink call happens in Close. *)
-Example csv_close_refuted :
-  exists f ws cl, write_skels KCsv [0; 0] = Some ws /\ close_skel KCsv false 1 = Some cl /\
-    let '(v, s) := run (static_env KCsv false [] f) ws cl in v = 0 /\ s_faulted s = true.
-Proof.
-  exists (mkFault FOneShot 1), [Rep 0 W; Rep 0 W], (Seq (Ignore (Rep 1 W)) CloseSink).
-  split; [reflexivity | split; [reflexivity | vm_compute; split; reflexivity]].
-Qed.
+(* The checker's conditions matter (regression witnesses, the shapes of the
+   three defects repaired in /repo): a swallowed error (old zngio.flush), a
+   final flush whose error is not consulted (old csvio.Close) and a discarded
+   flush result (old tableio.Write) each lose a failed sink call. *)
+Example swallowed_error_unsound :
+  let '(v, s) := run (mkEnv false [] (mkFault FOneShot 1))
+                     [Scope (Swallow (Seq W W))] (Both (IfDirty (Seq W Clean)) CloseSink) in
+  v = 0 /\ s_faulted s = true.
+Proof. vm_compute. split; reflexivity. Qed.
 
-(* with `return w.encoder.Error()`-style checking the csv skeleton passes *)
-Example csv_close_fixed_checked c : err_checked (Seq (Rep c W) CloseSink) = true.
-Proof. reflexivity. Qed.
+Example unconsulted_flush_unsound :
+  let '(v, s) := run (mkEnv true [] (mkFault FOneShot 1))
+                     [Rep 0 W; Rep 0 W] (Seq (Ignore (Rep 1 W)) CloseSink) in
+  v = 0 /\ s_faulted s = true.
+Proof. vm_compute. split; reflexivity. Qed.
 
-(* tableio.Writer.Write discards the result of w.flush() on a type change *)
-Example table_flush_refuted :
-  exists f ws cl, write_skels KTable [0; 0; 9; 0] = Some ws /\ close_skel KTable false 9 = Some cl /\
-    let '(v, s) := run (static_env KTable false [] f) ws cl in v = 0 /\ s_faulted s = true.
-Proof.
-  exists (mkFault FOneShot 4),
-    [Ignore (Rep 0 W); Ignore (Rep 0 W); Ignore (Rep 9 W); Ignore (Rep 0 W)], (Both (Rep 9 W) CloseSink).
-  split; [reflexivity | split; [reflexivity | vm_compute; split; reflexivity]].
-Qed.
-
-Example table_fixed_checked c c' :
-  err_checked (Scope (Rep c W)) = true /\ err_checked (Both (Rep c' W) CloseSink) = true.
-Proof. split; reflexivity. Qed.
+Example discarded_flush_unsound :
+  let '(v, s) := run (mkEnv false [] (mkFault FOneShot 4))
+                     [Ignore (Rep 0 W); Ignore (Rep 0 W); Ignore (Rep 9 W); Ignore (Rep 0 W)]
+                     (Both (Rep 9 W) CloseSink) in
+  v = 0 /\ s_faulted s = true.
+Proof. vm_compute. split; reflexivity. Qed.
 
 (* ------------------------------------------------------------------ zngio *)
 
-Lemma zblock_checked b : err_checked (zblock false b) = true.
+Lemma zblock_checked b : err_checked (zblock b) = true.
 Proof. unfold zblock. destruct (N.eqb b 0); reflexivity. Qed.
 
-Lemma zflush_checked tb vb : err_checked (zflush false tb vb) = true.
+Lemma zflush_checked tb vb : err_checked (zflush tb vb) = true.
 Proof. unfold zflush. simpl. rewrite !zblock_checked. reflexivity. Qed.
 
-Lemma zclose_checked buffered tb vb : err_checked (zclose false buffered tb vb) = true.
+Lemma zclose_checked buffered tb vb : err_checked (zclose buffered tb vb) = true.
 Proof.
   unfold zclose. simpl. rewrite !zblock_checked. destruct buffered; reflexivity.
 Qed.
 
-Lemma zblock_no_close sw b : no_close (zblock sw b) = true.
-Proof. unfold zblock. destruct (N.eqb b 0), sw; reflexivity. Qed.
-
-Lemma zflush_no_close sw tb vb : no_close (zflush sw tb vb) = true.
-Proof. unfold zflush. simpl. rewrite !zblock_no_close. reflexivity. Qed.
-
-Lemma zwrite_fixed e thresh sz tb vb s r p s1 :
-  zwrite e false thresh sz tb vb s = (r, p, s1) -> s_faulted s = false ->
+Lemma zwrite_reports e thresh sz tb vb s r p s1 :
+  zwrite e thresh sz tb vb s = (r, p, s1) -> s_faulted s = false ->
   s_faulted s1 = true -> r = RetErr.
 Proof.
   unfold zwrite. intros H F0 F1.
   destruct ((thresh <=? vb + snd sz)%N || (thresh <=? tb + fst sz)%N).
-  - destruct (exec e (zflush false (tb + fst sz) (vb + snd sz)) s) as [x s'] eqn:E.
+  - destruct (exec e (zflush (tb + fst sz) (vb + snd sz)) s) as [x s'] eqn:E.
     destruct (exec_checked _ _ _ _ _ (zflush_checked _ _) E) as (NN & FF).
     destruct x; inversion H; subst; auto.
     + destruct (FF F1); congruence.
@@ -493,83 +491,45 @@ Proof.
   - inversion H; subst. congruence.
 Qed.
 
-Lemma zwrites_fixed e thresh : forall szs i tb vb s rep p s1 l,
-  zwrites e false thresh szs i tb vb s = (rep, p, s1, l) -> s_faulted s = false ->
+Lemma zwrites_reports e thresh : forall szs i tb vb s rep p s1 l,
+  zwrites e thresh szs i tb vb s = (rep, p, s1, l) -> s_faulted s = false ->
   rep = None -> s_faulted s1 = false.
 Proof.
   induction szs as [|sz r IH]; intros i tb vb s rep p s1 l H F0 N; simpl in H.
   - inversion H; subst. auto.
-  - destruct (zwrite e false thresh sz tb vb s) as [[x [tb1 vb1]] s'] eqn:Z.
+  - destruct (zwrite e thresh sz tb vb s) as [[x [tb1 vb1]] s'] eqn:Z.
     destruct (s_faulted s') eqn:F'.
-    + rewrite (zwrite_fixed _ _ _ _ _ _ _ _ _ Z F0 F') in H. inversion H; subst. discriminate.
-    + destruct (zwrites e false thresh r (S i) tb1 vb1 s') as [[[rep' p'] s2] l'] eqn:ZS.
+    + rewrite (zwrite_reports _ _ _ _ _ _ _ _ _ Z F0 F') in H. inversion H; subst. discriminate.
+    + destruct (zwrites e thresh r (S i) tb1 vb1 s') as [[[rep' p'] s2] l'] eqn:ZS.
       destruct x; inversion H; subst; try discriminate; eapply IH; eauto.
 Qed.
 
-(* zngio.Writer with flush returning the writeBlock error (the proposed fix):
-   every failed sink call is reported, for all values, thresholds and faults. *)
-Theorem zng_fixed_reports e thresh szs v s l n :
-  zrun e false thresh szs = (v, s, l, n) -> s_faulted s = true -> v <> 0.
+(* zngio.Writer: every failed sink call is reported, for all value sizes,
+   frame thresholds, faults, directly on the sink or on pkg/bufwriter. *)
+Theorem zng_reports e thresh szs v s l n :
+  zrun e thresh szs = (v, s, l, n) -> s_faulted s = true -> v <> 0.
 Proof.
   unfold zrun. intros H F.
-  destruct (zwrites e false thresh szs 0 0%N 0%N st0) as [[[rep [tb vb]] s1] l'] eqn:ZS.
-  destruct (exec e (zclose false (e_buf e) tb vb) s1) as [x s2] eqn:X.
+  destruct (zwrites e thresh szs 0 0%N 0%N st0) as [[[rep [tb vb]] s1] l'] eqn:ZS.
+  destruct (exec e (zclose (e_buf e) tb vb) s1) as [x s2] eqn:X.
   inversion H; subst.
   destruct rep as [i|]; [discriminate|].
-  pose proof (zwrites_fixed _ _ _ _ _ _ _ _ _ _ _ ZS eq_refl eq_refl) as F1.
+  pose proof (zwrites_reports _ _ _ _ _ _ _ _ _ _ _ ZS eq_refl eq_refl) as F1.
   destruct (exec_checked _ _ _ _ _ (zclose_checked _ _ _) X) as (_ & FF).
   destruct (FF F) as [C|C]; [congruence|]. rewrite C. discriminate.
 Qed.
 
-(* The current code (flush returns nil when writeBlock fails) directly on a
-   sink: one value, frame threshold 1, the first sink call fails once. *)
-Example zng_current_refuted :
-  exists f thresh szs,
-    let '(v, s, _, _) := zrun (mkEnv false [] f) true thresh szs in v = 0 /\ s_faulted s = true.
-Proof. exists (mkFault FOneShot 1), 1%N, [(5, 3)%N]. vm_compute. split; reflexivity. Qed.
+(* non-vacuity and the two reporting sites: a failed frame write is reported by
+   the Write that flushes; a failed end-of-stream marker by Close *)
+Example zng_reports_at_write :
+  let '(v, s, _, _) := zrun (mkEnv false [] (mkFault FOneShot 1)) 1%N [(5, 3)%N; (0, 4)%N] in
+  v = 1 /\ s_faulted s = true.
+Proof. vm_compute. split; reflexivity. Qed.
 
-(* even a sticky failure is missed when it starts with the first call: nothing
-   was ever written, so Close does not attempt the end-of-stream marker *)
-Example zng_current_refuted_sticky :
-  exists szs,
-    let '(v, s, _, _) := zrun (mkEnv false [] (mkFault FSticky 1)) true 1%N szs in v = 0 /\ s_faulted s = true.
-Proof. exists [(5, 3)%N; (0, 4)%N]. vm_compute. split; reflexivity. Qed.
-
-(* The current code on pkg/bufwriter (emitter.NewFileFromURI, lake data objects):
-   the swallowed error is sticky in the bufio layer and Close reports it. *)
-Lemma zwrites_sticky e sw thresh : e_buf e = true -> forall szs i tb vb s rep p s1 l,
-  zwrites e sw thresh szs i tb vb s = (rep, p, s1, l) -> inv_sticky s -> inv_sticky s1.
-Proof.
-  intros B. induction szs as [|sz r IH]; intros i tb vb s rep p s1 l H I; simpl in H.
-  - inversion H; subst. auto.
-  - destruct (zwrite e sw thresh sz tb vb s) as [[x [tb1 vb1]] s'] eqn:Z.
-    assert (I' : inv_sticky s').
-    { unfold zwrite in Z.
-      destruct ((thresh <=? vb + snd sz)%N || (thresh <=? tb + fst sz)%N).
-      - destruct (exec e (zflush sw (tb + fst sz) (vb + snd sz)) s) as [y s''] eqn:E.
-        pose proof (exec_sticky _ _ _ _ _ B (zflush_no_close _ _ _) I E) as I2.
-        destruct y; inversion Z; subst; auto.
-      - inversion Z; subst. auto. }
-    destruct (zwrites e sw thresh r (S i) tb1 vb1 s') as [[[rep' p'] s2] l'] eqn:ZS.
-    destruct x; inversion H; subst; auto; eapply IH; eauto.
-Qed.
-
-Theorem zng_on_bufwriter_reports e sw thresh szs v s l n :
-  e_buf e = true ->
-  zrun e sw thresh szs = (v, s, l, n) -> s_faulted s = true -> v <> 0.
-Proof.
-  unfold zrun. intros B H F.
-  destruct (zwrites e sw thresh szs 0 0%N 0%N st0) as [[[rep [tb vb]] s1] l'] eqn:ZS.
-  rewrite B in *.
-  destruct (exec e (zclose sw true tb vb) s1) as [x s2] eqn:X.
-  inversion H; subst.
-  destruct rep as [i|]; [discriminate|].
-  pose proof (zwrites_sticky _ _ _ B _ _ _ _ _ _ _ _ _ ZS inv_sticky_st0) as I1.
-  unfold zclose in X.
-  assert (NC : no_close (Seq (Scope (zflush sw tb vb)) (IfDirty (Seq W Clean))) = true).
-  { simpl. rewrite !zblock_no_close. reflexivity. }
-  rewrite (both_bufclose_reports _ _ _ _ _ B NC I1 X F). discriminate.
-Qed.
+Example zng_reports_at_close :
+  let '(v, s, _, _) := zrun (mkEnv false [] (mkFault FOneShot 7)) 1%N [(5, 3)%N; (0, 4)%N] in
+  v = 3 /\ s_faulted s = true.
+Proof. vm_compute. split; reflexivity. Qed.
 
 (* ------------------------------------------------------------------ no fault, no error *)
 
